@@ -333,6 +333,48 @@ impl<'a> G<'a> {
         Op::new(K::AndThen(v))
     }
 
+    /// A scenario aimed at what a failing combinator must take back besides the position: it is entered
+    /// under one atomicity (or inside a lookahead), an element of its body switches to another atomicity
+    /// and emits tokens there (a rule that matches), a later element fails, and the parse goes on through
+    /// another branch, so the queue and the state left behind are observed.
+    fn atomicity_scenario(&mut self) -> Op {
+        let outer_at = self.atomicity();
+        let inner_at = self.atomicity();
+        // something that very likely matches at the start of the input
+        let first: String = self.chars.iter().take(1 + self.r.below(2)).collect();
+        let hit = if first.is_empty() || self.r.chance(1, 4) { Op::new(K::Skip(self.r.below(2))) } else { Op::new(K::MatchString(first)) };
+        let emitting = Op::new(K::Rule(*self.r.pick(&RULES), Box::new(hit)));
+        let mut inner = Op::new(K::Atomic(inner_at, Box::new(emitting)));
+        if self.r.chance(1, 3) {
+            inner = Op::new(K::Rule(*self.r.pick(&RULES), Box::new(inner)));
+        }
+        let mut body = vec![];
+        if self.r.chance(1, 3) {
+            body.push(Op::new(K::Rule(*self.r.pick(&RULES), Box::new(Op::new(K::Pass)))));
+        }
+        body.push(inner);
+        if self.r.chance(1, 3) {
+            body.push(self.leaf());
+        }
+        body.push(if self.r.chance(4, 5) { Op::new(K::Fail) } else { self.leaf() });
+        let failing = match self.r.below(5) {
+            0 | 1 | 2 => Op::new(K::Seq(body)),
+            3 => Op::new(K::RestoreOnErr(Box::new(Op::new(K::AndThen(body))))),
+            _ => Op::new(K::Look(self.r.chance(1, 2), Box::new(Op::new(K::AndThen(body))))),
+        };
+        let recovered = if self.r.chance(1, 2) { Op::new(K::Opt(Box::new(failing))) } else { Op::new(K::OrElse(vec![failing, self.leaf()])) };
+        let mut v = vec![recovered];
+        if self.r.chance(1, 2) {
+            v.push(self.leaf());
+        }
+        let inside = Op::new(K::Atomic(outer_at, Box::new(Op::new(K::AndThen(v)))));
+        if self.r.chance(1, 2) {
+            Op::new(K::Rule(*self.r.pick(&RULES), Box::new(inside)))
+        } else {
+            inside
+        }
+    }
+
     /// Operations inside a checkpoint: pushes, then a nested checkpoint that pops through.
     fn stack_level(&mut self, levels: usize) -> Vec<Op> {
         let mut ops = vec![];
@@ -395,6 +437,14 @@ pub fn gen_case(r: &mut Rng) -> (Op, String) {
     loop {
         let chars: Vec<char> = input.chars().collect();
         let mut g = G { r: &mut *r, chars, budget: MAX_NODES as i32 - 1, pushes: 0 };
+        if g.r.chance(1, 10) {
+            let mut op = g.atomicity_scenario();
+            let n = op.number();
+            if n <= MAX_NODES && op.depth() <= MAX_DEPTH {
+                return (op, input);
+            }
+            continue;
+        }
         if g.r.chance(1, 6) {
             let mut op = g.stack_scenario();
             let n = op.number();
